@@ -37,9 +37,23 @@ pub struct QCfg {
     pub fut_spins: Option<(u8, u8)>,
 }
 
+/// requested capacities encoded by `cap` values >= LARGE_CAP_BASE (the serialised field stays a u8):
+/// powers of two and their neighbours up to 2^17, around the 8/16-bit boundaries of the distance
+/// arithmetic (round-9 seed C03-10 keeps the writer-to-slowest-reader distance in a u16)
+pub const LARGE_CAP_BASE: u8 = 200;
+pub const LARGE_CAPS: &[u64] = &[255, 256, 257, 1000, 4096, 32768, 65531, 65535, 65536, 65537, 131072];
+
 impl QCfg {
+    /// the capacity passed to the constructor
+    pub fn requested(&self) -> u64 {
+        if self.cap >= LARGE_CAP_BASE {
+            LARGE_CAPS[(self.cap - LARGE_CAP_BASE) as usize % LARGE_CAPS.len()]
+        } else {
+            self.cap as u64
+        }
+    }
     pub fn n(&self) -> usize {
-        let c = self.cap as usize;
+        let c = self.requested() as usize;
         if c == 0 {
             1
         } else {
@@ -120,7 +134,7 @@ pub enum RecvOut {
 }
 
 pub fn create(c: &QCfg) -> (Tx, Rx) {
-    let cap = c.cap as u64;
+    let cap = c.requested();
     match (c.flavour, c.futures) {
         (Flavour::Broadcast, false) => {
             let (t, r) = match c.wait {
